@@ -133,23 +133,28 @@ def runImp (prop fS tyS srcS extS implS0 : String) : Result :=
         s!"imp {fS}({tyS}) {srcS}: impl [{implS0}] model [{ms}] violates {prop}: key={c}"⟩
   | _, _, _, _ => ⟨"B", "cannot parse imp case"⟩
 
-/-- Did the exporter's `NewValue` swallow a failed cast for some declared column? -/
-def swallowedCast (env : Env) (to : Tmpl) (row : List (Bytes × Val)) : Bool :=
-  to.any fun (k, c) =>
-    match c with
-    | .cell _ _ typ =>
-      typ != .none &&
-      (match lookup row k with
-       | some rc =>
-         let raw := Cells.raw rc
-         (match raw with
-          | .nil => false
-          | _ => match Cast.castTo env.T env.ext typ raw with
-            | .err .ext => false
-            | .err _ => true
-            | _ => false)
-       | none => false)
-    | .row _ => false
+/-- Did the exporter's `NewValue` swallow a failed cast for some declared column? `none` when the
+    model cannot tell (a stdlib answer it was not given, or a caster the translator could not read). -/
+def swallowedCast (env : Env) (to : Tmpl) (row : List (Bytes × Val)) : Option Bool :=
+  to.foldl (fun (acc : Option Bool) (kc : Bytes × Val) =>
+    match acc with
+    | some true => some true
+    | _ =>
+      match kc.2 with
+      | .cell _ _ typ =>
+        if typ == .none then acc
+        else
+          match lookup row kc.1 with
+          | some rc =>
+            (match Cells.raw rc with
+             | .nil => acc
+             | raw =>
+               match Cast.castTo env.T env.ext typ raw with
+               | .err .ext => none
+               | .err _ => some true
+               | _ => acc)
+          | none => acc
+      | .row _ => acc) (some false)
 
 def containsSub (hay needle : Bytes) : Bool :=
   let n := needle.length
@@ -187,7 +192,10 @@ def runTwice (zone tiS toS lineS extS firstS secondS hint : String) : Result :=
             -- attribution
             -- by the model; when the model cannot compute the line, by the hint computed on the implementation
             let swallowed := match getRow env ti line with
-              | .ok (row, none) => swallowedCast env to row
+              | .ok (row, none) =>
+                (match swallowedCast env to row with
+                 | some b => b
+                 | none => hint == "sw=1")
               | .err .ext => hint == "sw=1"
               | _ => false
             if swallowed then some "swallowed-cast"
